@@ -128,7 +128,7 @@ def build_extractor_config(flavour, cfg, files, units, bare=(), demoted=()):
     return {
         'src': os.path.join(REPO, 'src'),
         'features': fl['features'], 'cfg_flags': fl['cfg_flags'],
-        'roots': cfg['roots'], 'macro_map': cfg['macro_map'],
+        'roots': cfg['roots'], 'macro_map': cfg['macro_map'], 'path_map': cfg.get('path_map', {}),
         'effects_path': eff_path, 'effects_method': eff_method, 'effects_method_derived': sorted(derived),
         'iter_renames': cfg['iter_renames'], 'asref_map': cfg['asref_map'],
         'opaque_fmt_in': cfg['opaque_fmt_in'], 'world_ty': 'crate::shims::World',
